@@ -54,6 +54,37 @@ def handle (line : Json) : Json :=
           (if Sp.onOrAfterOk now skew tm then .value (.int tm) else .raised "ResponseLifetimeExceed")
         else (if Sp.beforeOk now skew tm then .value (.bool true) else .raised "ToEarly")
     Json.mkObj [("interp", resJson r), ("model", resJson model)]
+  | "authn_statement_ok" =>
+    -- stmts: the lexical SessionNotOnOrAfter of each AuthnStatement (null = absent); tmtab: what each lexical value denotes
+    let stmts : List (Option String) := optStrs ((line.getObjVal? "stmts").toOption.getD Json.null)
+    let tab : List (String × Int) := match (line.getObjVal? "tmtab").bind (·.getArr?) with
+      | .ok a => a.toList.filterMap (fun x => match x.getArr? with
+          | .ok p => match p.toList with
+            | [k, v] => match k.getStr?, v.getInt? with
+              | .ok ks, .ok vi => some (ks, vi)
+              | _, _ => none
+            | _ => none
+          | .error _ => none)
+      | .error _ => []
+    let tm : String → Int := fun x => ((tab.find? (fun p => p.1 == x)).map (·.2)).getD 0
+    let now := intD line "now"
+    let skew := (intD line "skew").toNat
+    let sess := intD line "sess"
+    let out := runMethod Sp.pyStrip (pyExt0 now tm) Gen.PyFuns.AuthnResponse_authn_statement_ok
+      [selfAuthn stmts skew sess, .bool false]
+    let sessOut : Json := match sessionOf out.2 with | some v => valJson v | none => Json.null
+    let cfg : Sp.Cfg := { skew := skew }
+    let env : Sp.Env := { now := now }
+    let st : Sp.St := { sessionNooa := sess }
+    let a : Sp.Assertion := { authn := authnOf tm (stmts.map (fun s => (s, none))) }
+    let model : Json := match Sp.authnStatementOk cfg env st a with
+      | .ok st' => Json.mkObj [("r", "value"), ("session", toJson st'.sessionNooa)]
+      | .error e => Json.mkObj [("r", "raised"), ("cls", errClass e)]
+    let interp : Json := match out.1 with
+      | .value _ => Json.mkObj [("r", "value"), ("session", sessOut)]
+      | .raised c => Json.mkObj [("r", "raised"), ("cls", c)]
+      | .stuck w => Json.mkObj [("r", "stuck"), ("why", w)]
+    Json.mkObj [("interp", interp), ("model", model), ("returned", resJson out.1)]
   | _ => Json.mkObj [("interp", Json.mkObj [("r", "stuck"), ("why", "unknown function")])]
 
 def main : IO Unit := serve handle
